@@ -489,3 +489,29 @@ Proof.
   - exact R.
   - exists k. lia.
 Qed.
+
+(* ------------------------------------------------------------------ the report's selectors depend
+   only on the stack identity *)
+Lemma list_eqb_Z_eq a : forall b, list_eqb Z.eqb a b = true -> a = b.
+Proof.
+  induction a as [|x a IH]; intros b H; destruct b as [|y b]; simpl in H; try discriminate; [reflexivity|].
+  apply andb_true_iff in H as [H1 H2]. apply Z.eqb_eq in H1. subst. f_equal. apply IH, H2.
+Qed.
+
+Lemma key_eqb_loc a b : key_eqb a b = true -> s_loc a = s_loc b.
+Proof.
+  unfold key_eqb. intros H. apply andb_true_iff in H as [H _]. apply andb_true_iff in H as [H _].
+  apply andb_true_iff in H as [H _]. apply list_eqb_Z_eq, H.
+Qed.
+
+Lemma flat_g_respects p e : respects_key (flat_g p e).
+Proof. intros a b K. unfold flat_g, frames_of. rewrite (key_eqb_loc a b K). reflexivity. Qed.
+Lemma cum_g_respects p e : respects_key (cum_g p e).
+Proof. intros a b K. unfold cum_g, frames_of. rewrite (key_eqb_loc a b K). reflexivity. Qed.
+
+Lemma self_diff_zero_lemma p r g i :
+  merge [p; scale_all keep_written (-1) p] = Ok r -> wf_profile p -> respects_key g ->
+  eq64 (lin g i (p_sample r)) 0.
+Proof.
+  intros M W R. destruct (diff_subtracts_lemma p p r g i M W W R) as [k H]. exists k. lia.
+Qed.
